@@ -322,7 +322,10 @@ impl Transport for PciTransport {
             .config_space
             .as_ref()
             .ok_or(Error::ConfigSpaceMissing)?;
-        if config_space.len() * size_of::<u32>() < offset + size_of::<T>() {
+        if offset
+            .checked_add(size_of::<T>())
+            .is_none_or(|end| config_space.len() * size_of::<u32>() < end)
+        {
             Err(Error::ConfigSpaceTooSmall)
         } else {
             // SAFETY: If we have a config space pointer it must be valid for its length, and we
@@ -354,7 +357,10 @@ impl Transport for PciTransport {
             .config_space
             .as_mut()
             .ok_or(Error::ConfigSpaceMissing)?;
-        if config_space.len() * size_of::<u32>() < offset + size_of::<T>() {
+        if offset
+            .checked_add(size_of::<T>())
+            .is_none_or(|end| config_space.len() * size_of::<u32>() < end)
+        {
             Err(Error::ConfigSpaceTooSmall)
         } else {
             // SAFETY: If we have a config space pointer it must be valid for its length, and we
